@@ -26,7 +26,7 @@ Theorem control_table :
    (forall nl, (nl <= 1)%Z -> dup_res p nl true = RNil) /\
    dup_listener_res p true true = RNil /\
    register_res p true TgtAddr = (RNil, Some true) /\
-   register_res p true TgtConn = (RNil, Some false) /\
+   register_res p true TgtConn = (RNil, Some true) /\
    stop_entry p = None) /\
   (* once shutdown has completed *)
   (validate PShutdown = RInShutdown /\
